@@ -365,6 +365,13 @@ func main() {
 	case "c07":
 		runC07(*aux, *in, reserved, b)
 		return
+	case "c04":
+		stride := 7
+		if *aux != "" {
+			fmt.Sscan(*aux, &stride)
+		}
+		runC04(*in, b, stride)
+		return
 	}
 	f, err := os.Open(*in)
 	if err != nil {
